@@ -222,18 +222,22 @@ class Parser:
         stream.expect(TokenType.COLON)
         stream.next_token()
 
+        # A step can only follow a second colon.
+        second_colon = False
+
         # 1 or 1: or : or ?
         if _maybe_index(stream.current):
             stop = int(stream.current.value)
             stream.next_token()
             if stream.current.type_ == TokenType.COLON:
+                second_colon = True
                 stream.next_token()
         elif stream.current.type_ == TokenType.COLON:
-            stream.expect(TokenType.COLON)
+            second_colon = True
             stream.next_token()
 
         # 1 or ?
-        if _maybe_index(stream.current):
+        if second_colon and _maybe_index(stream.current):
             step = int(stream.current.value)
             stream.next_token()
 
